@@ -1705,7 +1705,7 @@ class TrajectoryStore:
                 elif data is not None:
                     val = getattr(data, name)
 
-                self._write_to_nc_var(var, index, name, field, val)
+                self._write_to_nc_var(var, index, name, field, val, nc_file.species)
                 nc_file.traj_var[0][index] = index
 
     def _write_to_nc_var(
@@ -1715,8 +1715,12 @@ class TrajectoryStore:
         name: str,
         field: FieldMetadata,
         val: Any,
+        species: list[Species] | None = None,
     ) -> None:
-        """Write a value to a NetCDF variable at the given index."""
+        """Write a value to a NetCDF variable at the given index.
+
+        Species-indexed values are written at the position of each species in
+        the file's species dimension (`species`)."""
 
         # Handle missing values.
         if val is None:
@@ -1730,6 +1734,14 @@ class TrajectoryStore:
         # variable length types of the appropriate base type.
         has_sp = Dimension.SPECIES in field.dimensions
         has_tm = Dimension.THRUST_MODE in field.dimensions
+        if has_sp:
+            species = species or []
+            for sp in val.keys():
+                if sp not in species:
+                    raise ValueError(
+                        f'Species {sp.name} in data field "{name}" is not in the '
+                        'species dimension of the NetCDF file'
+                    )
         match (has_sp, has_tm):
             case (False, False):
                 # float, np.ndarray
@@ -1740,12 +1752,12 @@ class TrajectoryStore:
                     var[index, ti] = val[tm]
             case (True, False):
                 # SpeciesValues[float], SpeciesValues[np.ndarray]
-                for si, sp in enumerate(Species):
+                for si, sp in enumerate(species):
                     if sp in val:
                         var[index, si] = val[sp]
             case (True, True):
                 # SpeciesValues[ThrustModeValues]
-                for si, sp in enumerate(Species):
+                for si, sp in enumerate(species):
                     for ti, tm in enumerate(ThrustMode):
                         if sp in val and tm in val[sp]:
                             var[index, si, ti] = val[sp][tm]
@@ -1779,10 +1791,25 @@ class TrajectoryStore:
                 if all(var[index] == var.get_fill_value()):
                     return None
                 return var[index]
-            case (True, False, False) | (True, False, True):
-                # SpeciesValues[float] | SpeciesValues[np.ndarray]
+            case (True, False, False):
+                # SpeciesValues[float]: species not written for this field
+                # are left out.
+                fill = var.get_fill_value()
                 return SpeciesValues(
-                    {sp: var[index, si] for si, sp in enumerate(species)}
+                    {
+                        sp: var[index, si]
+                        for si, sp in enumerate(species)
+                        if var[index, si] != fill
+                    }
+                )
+            case (True, False, True):
+                # SpeciesValues[np.ndarray]
+                return SpeciesValues(
+                    {
+                        sp: var[index, si]
+                        for si, sp in enumerate(species)
+                        if len(var[index, si]) > 0
+                    }
                 )
             case (False, True, False):
                 # ThrustModeValues
@@ -1791,12 +1818,17 @@ class TrajectoryStore:
                 )
             case (True, True, False):
                 # SpeciesValues[ThrustModeValues]
+                fill = var.get_fill_value()
                 return SpeciesValues[ThrustModeValues](
                     {
                         sp: ThrustModeValues(
                             {tm: var[index, si, ti] for ti, tm in enumerate(ThrustMode)}
                         )
                         for si, sp in enumerate(species)
+                        if any(
+                            var[index, si, ti] != fill
+                            for ti in range(len(ThrustMode))
+                        )
                     }
                 )
             case _:
